@@ -211,6 +211,13 @@ func (u *Unit) stmt(st *State, s ast.Stmt, c *Ctl, k func(*State)) {
 					st.env[obj] = ev.coerce(ev.exprWithType(vs.Values[i], obj.Type()), obj.Type())
 				} else {
 					st.env[obj] = u.zero(obj.Type())
+					if nt, ok := obj.Type().(*types.Named); ok && nt.Obj().Pkg() != nil && nt.Obj().Pkg().Path() == "sync" && nt.Obj().Name() == "WaitGroup" {
+						as := arraySort(SRef, SInt)
+						u.famSort("G:wg", as)
+						key := quote("local:" + n.Name)
+						u.declare(key, SRef)
+						u.setFam(st, "G:wg", as, app("store", u.fam(st, "G:wg", as), key, "0"))
+					}
 				}
 			}
 		}
